@@ -3,7 +3,7 @@
    three rules whose effect is not a plain push (the start rule, continuedJsonpath with its node chain,
    jsonpathFilter with its save/load of the parameter list) are proved by hand in the same logic.
    Result: replaying the tokens of any successful match never reaches a crash site of the action model. *)
-From JP Require Import Peg Grammar Text Tree Actions Eval WF PegFacts ParseFacts ErrPos StackLogic TreeWf StackActs StackCheck.
+From JP Require Import Peg Grammar Text Tree Actions Eval WF AccDefs PegFacts ParseFacts ErrPos StackLogic TreeWf StackActs StackCheck.
 From Coq Require Import Lia.
 Open Scope list_scope.
 Open Scope nat_scope.
@@ -152,8 +152,8 @@ Section Rules.
   Qed.
 
   (* ---------- continuedJsonpath: the node chain ---------- *)
-  Lemma nwf_split n : nwf n = true <-> wf_node n = true /\ vgc n = true.
-  Proof. unfold nwf. apply andb_true_iff. Qed.
+  Lemma nwf_split n : nwf n = true <-> wf_node n = true /\ vgc n = true /\ acc_clean n = true.
+  Proof. unfold nwf. rewrite !andb_true_iff. tauto. Qed.
 
   Lemma chain_fold : forall nodes root, nwf root = true -> Forall (fun n => nwf n = true) nodes -> exists root',
     fold_left chain_step (map INode nodes) (AOk root) = AOk root' /\ rootedb root' = rootedb root /\ nwf root' = true.
@@ -161,17 +161,18 @@ Section Rules.
     induction nodes as [|a nodes IH]; intros root Hr Hn; cbn [map fold_left].
     - exists root. split; [reflexivity|split; [reflexivity|exact Hr]].
     - inversion Hn as [|? ? Ha Hrest]; subst.
-      apply nwf_split in Hr. destruct Hr as [Hr1 Hr2]. pose proof Ha as Ha'. apply nwf_split in Ha'. destruct Ha' as [Ha1 Ha2].
+      apply nwf_split in Hr. destruct Hr as (Hr1 & Hr2 & Hr3). pose proof Ha as Ha'. apply nwf_split in Ha'. destruct Ha' as (Ha1 & Ha2 & Ha3).
       assert (Happ : nwf (append_deep root a) = true).
-      { apply nwf_split. split; [apply wf_append_deep; assumption|apply vgc_append_deep; assumption]. }
+      { apply nwf_split. split; [apply wf_append_deep; assumption|]. split; [apply vgc_append_deep; assumption|apply acc_clean_append_deep; assumption]. }
       destruct a as [k bb nx].
       destruct k; cbn [chain_step abind];
         try (destruct (IH _ Happ Hrest) as (r' & E & R & W); exists r'; split; [exact E|split; [rewrite R; apply rootedb_append_deep|exact W]]).
       (* an aggregate takes the chain so far as its parameter *)
       assert (Hagg : nwf (Node (KAgg f (clear_acc (update_vg root))) bb nx) = true).
-      { apply nwf_split. cbn [wf_node vgc single_kind orb] in *. split.
+      { apply nwf_split. cbn [wf_node vgc single_kind orb acc_clean] in *. split; [|split].
         - apply andb_true_iff in Ha1. destruct Ha1 as [_ Hnx]. rewrite wf_clear_acc, wf_update_vg, Hr1. exact Hnx.
-        - exact Ha2. }
+        - exact Ha2.
+        - apply andb_true_iff in Ha3. destruct Ha3 as [_ Hnx]. rewrite all_false_clear_acc by (rewrite acc_clean_update_vg; exact Hr3). exact Hnx. }
       destruct (IH _ Hagg Hrest) as (r' & E & R & W). exists r'. split; [exact E|]. split; [|exact W].
       rewrite R. change (rootedb (clear_acc (update_vg root)) = rootedb root).
       rewrite rootedb_clear_acc. apply rootedb_update_vg.
@@ -212,8 +213,8 @@ Section Rules.
     apply tr_act. intros cps b st (nodes & Hs & Hn). cbn [snd] in Hs. subst st.
     cbn [Actions.exec_action]. unfold set_node_chain. cbn [params mk].
     assert (Hfin : forall r0, nwf r0 = true -> nwf (update_vg r0) = true /\ hvg (update_vg r0) = true).
-    { intros r0 H0. apply nwf_split in H0. destruct H0 as [H1 H2]. split; [|apply hvg_update_vg].
-      apply nwf_split. split; [rewrite wf_update_vg; exact H1|apply vgc_update_vg; exact H2]. }
+    { intros r0 H0. apply nwf_split in H0. destruct H0 as (H1 & H2 & H3). split; [|apply hvg_update_vg].
+      apply nwf_split. split; [rewrite wf_update_vg; exact H1|]. split; [apply vgc_update_vg; exact H2|rewrite acc_clean_update_vg; exact H3]. }
     destruct nodes as [|n1 ns].
     - cbn [map abind update_root_vg params wpa]. unfold update_root_vg. cbn [params wpa].
       exists (update_vg x). destruct (Hfin x Hx) as [F1 F2]. repeat split; try assumption.
@@ -230,10 +231,12 @@ Section Rules.
   Lemma operand_ok nd : nwf nd = true -> hvg nd = true ->
     pqwf (PqRoot (clear_acc (delete_root nd))) = true /\ pqwf (PqCur (clear_acc (delete_root nd))) = true.
   Proof.
-    intros Hn Hh. apply nwf_split in Hn. destruct Hn as [H1 H2].
-    assert (H : nwf (clear_acc (delete_root nd)) && hvg (clear_acc (delete_root nd)) = true).
-    { apply andb_true_iff. split.
-      - apply nwf_split. split; [rewrite wf_clear_acc; apply wf_delete_root; exact H1|rewrite vgc_clear_acc; apply vgc_delete_root; exact H2].
+    intros Hn Hh. apply nwf_split in Hn. destruct Hn as (H1 & H2 & H3).
+    pose proof (all_false_clear_acc _ (acc_clean_delete_root nd H3)) as Haf.
+    assert (H : nwf (clear_acc (delete_root nd)) && hvg (clear_acc (delete_root nd)) && all_false (clear_acc (delete_root nd)) = true).
+    { apply andb_true_iff. split; [apply andb_true_iff; split|exact Haf].
+      - apply nwf_split. split; [rewrite wf_clear_acc; apply wf_delete_root; exact H1|].
+        split; [rewrite vgc_clear_acc; apply vgc_delete_root; exact H2|apply all_false_acc_clean; exact Haf].
       - rewrite hvg_clear_acc. apply hvg_delete_root. exact Hh. }
     split; exact H.
   Qed.
@@ -282,7 +285,7 @@ Section Rules.
   (* ---------- singleJsonpathFilter: the operand of a comparison must be single-valued ---------- *)
   Lemma single_of_head n : nwf n = true -> hvg n = true -> vgroup (node_basic n) = false -> single_chain n = true.
   Proof.
-    intros Hn Hh Hv. apply nwf_split in Hn. destruct Hn as [_ Hvgc]. apply vgc_single; [exact Hvgc|].
+    intros Hn Hh Hv. apply nwf_split in Hn. destruct Hn as (_ & Hvgc & _). apply vgc_single; [exact Hvgc|].
     unfold hvg in Hh. rewrite Hv in Hh. destruct (chain_vg n); [discriminate|reflexivity].
   Qed.
 
@@ -304,13 +307,14 @@ Section Rules.
               Gam ps sv pr (mkA (rev [TCP]) false) (cps, b, mk (ps ++ rev [ICParam (CP q lit)]) sv pr)).
     { intros q lit n _ _ _ Hq. exists [ICParam (CP q lit)]. cbn [a_stk a_cap rev app snd fst]. split; [|split; [reflexivity|discriminate]].
       constructor; [exact Hq|constructor]. }
-    destruct p as [v|n|n]; [contradiction| |]; apply andb_true_iff in Hp; destruct Hp as [Hn Hh]; subst b0.
+    destruct p as [v|n|n]; [contradiction| |]; apply andb_true_iff in Hp; destruct Hp as [Hp Haf];
+      apply andb_true_iff in Hp; destruct Hp as [Hn Hh]; subst b0.
     - destruct (vgroup (node_basic n)) eqn:Ev; [exact I|]. cbn [wpa]. rewrite push_G.
       apply (Hdone _ _ n Hn Hh eq_refl). cbn [cpwf negb andb].
-      pose proof (single_of_head n Hn Hh Ev) as Hsc. apply nwf_split in Hn. destruct Hn as [Hw _]. rewrite Hw, Hsc. reflexivity.
+      pose proof (single_of_head n Hn Hh Ev) as Hsc. apply nwf_split in Hn. destruct Hn as (Hw & _). rewrite Hw, Hsc, Haf. reflexivity.
     - destruct (vgroup (node_basic n)) eqn:Ev; [exact I|]. cbn [wpa]. rewrite push_G.
       apply (Hdone _ _ n Hn Hh eq_refl). cbn [cpwf negb andb].
-      pose proof (single_of_head n Hn Hh Ev) as Hsc. apply nwf_split in Hn. destruct Hn as [Hw _]. rewrite Hw, Hsc. reflexivity.
+      pose proof (single_of_head n Hn Hh Ev) as Hsc. apply nwf_split in Hn. destruct Hn as (Hw & _). rewrite Hw, Hsc, Haf. reflexivity.
   Qed.
 
   (* ---------- every rule, at every fuel ---------- *)
@@ -328,7 +332,7 @@ Section Rules.
   Qed.
 
   (* ---------- the start rule ---------- *)
-  Lemma rule0 f : tr (S f) (PRef 0) (at_ ps_init) (fun y => exists t, proot (snd y) = Some t /\ wf_node t = true).
+  Lemma rule0 f : tr (S f) (PRef 0) (at_ ps_init) (fun y => exists t, proot (snd y) = Some t /\ wf_node t = true /\ acc_clean t = true).
   Proof.
     pose proof (rules_all f) as HR. eapply tr_ref; [reflexivity|]. apply tr_alt.
     - (* jsonpath END {0} *)
@@ -337,8 +341,8 @@ Section Rules.
       apply tr_act. intros cps b st (vals & Ht & Hs & _). cbn [snd a_stk] in *. subst st.
       inversion Ht as [|v ? vs ? Hv Hvs]; subst. inversion Hvs; subst. destruct v; try discriminate Hv.
       cbn [Actions.exec_action]. unfold pop_node. rewrite pop_G. cbn [abind wpa proot snd].
-      eexists. split; [reflexivity|]. cbn [has_ty] in Hv. apply nwf_split in Hv. destruct Hv as [Hw _].
-      rewrite wf_set_ctext_deep. apply wf_delete_root. exact Hw.
+      eexists. split; [reflexivity|]. cbn [has_ty] in Hv. apply nwf_split in Hv. destruct Hv as (Hw & _ & Hacc).
+      split; [rewrite wf_set_ctext_deep; apply wf_delete_root; exact Hw|rewrite acc_clean_set_ctext_deep; apply acc_clean_delete_root; exact Hacc].
     - (* the catch-all alternative always ends in action 1 *)
       eapply tr_seq with (R := fun _ => True).
       { apply tr_opt; [|trivial].
@@ -373,8 +377,8 @@ Section Rules.
   Qed.
 
   (* every tree Parse returns is well formed: the evaluator theorems apply to it *)
-  Theorem parse_builds_wf input t :
-    parse_with cfg parse_float regex_ok G input = ParseOk t -> wf_node t = true.
+  Theorem parse_builds_wf_acc input t :
+    parse_with cfg parse_float regex_ok G input = ParseOk t -> wf_node t = true /\ acc_clean t = true.
   Proof.
     unfold parse_with, parse_from, peg_parse. generalize (parse_fuel input). intros fuel.
     destruct (run G fuel (PRef 0) input 0) as [| |rest pos toks] eqn:Er; try discriminate.
@@ -384,4 +388,13 @@ Section Rules.
     destruct (xrun cfg parse_float regex_ok toks input [] 0 ps_init) as [x|err|site]; cbn [abind wp] in *; try discriminate.
     destruct Hw as (t' & Ht & Hwf). rewrite Ht. intros H. inversion H; subst. exact Hwf.
   Qed.
+
+  (* every tree Parse returns is well formed: the evaluator theorems apply to it *)
+  Theorem parse_builds_wf input t :
+    parse_with cfg parse_float regex_ok G input = ParseOk t -> wf_node t = true.
+  Proof. intros H. exact (proj1 (parse_builds_wf_acc input t H)). Qed.
+  (* ... and function parameters and filter operands carry no accessor flag (hypothesis of C12) *)
+  Theorem parse_builds_acc_clean input t :
+    parse_with cfg parse_float regex_ok G input = ParseOk t -> acc_clean t = true.
+  Proof. intros H. exact (proj2 (parse_builds_wf_acc input t H)). Qed.
 End Rules.
